@@ -1,4 +1,4 @@
-import Proofs.Store.NodeDBCrash
+import Proofs.Store.MultiDisk
 /-!
 # C07 — A crash at any point of a commit is recoverable without divergence
 
@@ -46,6 +46,111 @@ theorem crash_recover_reexecute_substore (hH : HashOK H) (S : Tree → Prop) (hi
     exact ⟨m', by simpa [MTree.setRoot, recovered] using hsv, fun v => getImmutable_good hH (by simpa [MTree.setRoot, recovered] using gm'.disk) hok1 v⟩
   · obtain ⟨r, hr, hlast, hl, m', hsv, hdb, _, gm'⟩ := recover_after hH hi next g₁ hok1 hne
     exact ⟨_, hl, rfl, hlast, m', hsv, fun v => getImmutable_good hH gm'.disk hok1 v⟩
+
+/-! ## The multistore: every crash point of every commit after the first
+
+`GoodMS H S names hs k s`: the running multistore `s` has completed `k` commits, substore `n` having
+saved the versions `hs n`.  `runMS_good` (below, `reachable`) shows that every legal block history
+from a fresh disk leads to such a state.  `nx n` is the working tree the block leaves in substore `n`,
+`order` the iteration order of `commitStores`, `order'` the (possibly different) order after the restart. -/
+
+/-- Every legal history from an empty DB reaches a good multistore (so the crash theorems below apply
+at every height `≥ 1` of every history). -/
+theorem reachable (hH : HashOK H) (S : Tree → Prop) (hi : Inj H S) (names : List RootMulti.Name) (hnd : names.Nodup)
+    (blocks : List (List RootMulti.Name × (RootMulti.Name → Option Tree)))
+    (hb : GoodBlocks S names (fun _ => []) 0 blocks) :
+    ∃ s0 s ids, openMS H (freshDisk names) names = some s0 ∧
+      runMS H s0 (blocks.map fun b => (b.1, fullBlock names b.2)) = some (s, ids) ∧
+      GoodMS H S names (histsAfter (fun _ => []) blocks) blocks.length s := by
+  obtain ⟨s0, h0, g0⟩ := openMS_fresh_good (H := H) S names hnd
+  obtain ⟨s, ids, hrun, g, _⟩ := runMS_good hH hi blocks _ 0 s0 g0 hb
+  exact ⟨s0, s, ids, h0, hrun, by simpa using g⟩
+
+/-- **crash_recover_state** (`k ≥ 1`).  The commit of a legal block performs `|order|+1` atomic
+writes.  After a crash behind any `j` of them, `LoadLatestVersion` on a fresh object succeeds and
+shows: while `j ≤ |order|` (final batch not written) the *previous* commit id and every substore on
+version `k` with exactly the tree committed at `k`; for `j = |order|+1` the new commit id and the new
+trees. -/
+theorem crash_recover_state (hH : HashOK H) (S : Tree → Prop) (hi : Inj H S) (names : List RootMulti.Name)
+    (hs : RootMulti.Name → List (Option Tree)) (k : Nat) (s : MStore) (g : GoodMS H S names hs k s) (hk : 1 ≤ k)
+    (nx : RootMulti.Name → Option Tree) (order : List RootMulti.Name) (ho : IsOrder names order)
+    (hstep : ∀ n ∈ names, StepOK S k (lastOf (hs n)) (nx n)) :
+    ∃ s' cid ws, commitMS H order (s.applyBlock (fullBlock names nx)) = some (s', cid, ws) ∧
+      ws.length = order.length + 1 ∧
+      (∀ j, j ≤ order.length → ∃ rec, openMS H (crashDisk s.disk ws j) names = some rec ∧
+        rec.lastCommitID = s.lastCommitID ∧
+        ∀ n ∈ names, ∃ m, aget n rec.stores = some m ∧ m.version = k ∧ m.root = lastOf (hs n)) ∧
+      (∃ rec, openMS H (crashDisk s.disk ws (order.length + 1)) names = some rec ∧
+        rec.lastCommitID = cid ∧
+        ∀ n ∈ names, ∃ m, aget n rec.stores = some m ∧ m.version = (k : Int) + 1 ∧ m.root = nx n) := by
+  obtain ⟨s', ws, hc, hlen, g', hcrash, hfull, hci⟩ := crash_disks hH hi g nx order ho hstep
+  have hl : ∀ n ∈ names, (hs n).length = k := fun n hn => by obtain ⟨_, _, _, _, h⟩ := g.tree n hn; exact h
+  refine ⟨s', _, ws, hc, hlen, ?_, ?_⟩
+  · intro j hj
+    obtain ⟨ci, hci', hv, hopen⟩ := recover_state hH nx order j (hcrash j hj) hk hl
+    refine ⟨_, hopen, ?_, ?_⟩
+    · rw [g.lcid]
+      have hk0 : ¬ k = 0 := by omega
+      simp only [hk0, if_false]
+      have hsame : (crashDisk s.disk ws j).cinfos = s.cinfos := by
+        have := crashDisk_stores s.disk order (fun _ => ({} : NDB)) (.final 0 ⟨0, []⟩) j hj
+        -- the store batches do not touch the commit infos
+        unfold crashDisk
+        have key : ∀ (l : List DWrite) (d : Disk), (∀ w ∈ l, ∃ n db, w = DWrite.store n db) → (l.foldl Disk.apply d).cinfos = d.cinfos := by
+          intro l
+          induction l with
+          | nil => intro d _; rfl
+          | cons w l ih =>
+            intro d hw
+            obtain ⟨n, db, rfl⟩ := hw w List.mem_cons_self
+            rw [List.foldl_cons, ih _ (fun w' hw' => hw w' (List.mem_cons_of_mem _ hw'))]
+            rfl
+        apply key
+        intro w hw
+        obtain ⟨s'', dbOf, hc', _⟩ := commitMS_good hH hi g nx order ho hstep
+        rw [hc] at hc'; cases hc'
+        rw [List.take_append_of_le_length (by simpa using hj)] at hw
+        obtain ⟨n, _, rfl⟩ := List.mem_map.mp (List.mem_of_mem_take hw)
+        exact ⟨n, _, rfl⟩
+      rw [hsame] at hci'
+      simp [hci']
+    · intro n hn
+      refine ⟨recovered ((crashDisk s.disk ws j).storeDB n) k (lastOf (hs n)), ?_, rfl, rfl⟩
+      rw [aget_map_names (fun n => recovered ((crashDisk s.disk ws j).storeDB n) k (lastOf (hs n))) names n, if_pos hn]
+  · obtain ⟨ci, hci', hopen⟩ := openMS_good hH hfull (by omega)
+    have e : ((k + 1 : Nat) : Int) = (k : Int) + 1 := by push_cast; rfl
+    rw [e] at hci' hopen
+    rw [hci] at hci'; cases hci'
+    refine ⟨_, hopen, rfl, ?_⟩
+    intro n hn
+    refine ⟨recovered ((crashDisk s.disk ws (order.length + 1)).storeDB n) ((k : Int) + 1)
+        ((histAt (hs n ++ [nx n]) ((k : Int) + 1)).getD none), ?_, rfl, ?_⟩
+    · rw [aget_map_names (fun n => recovered ((crashDisk s.disk ws (order.length + 1)).storeDB n) ((k : Int) + 1)
+        ((histAt (hs n ++ [nx n]) ((k : Int) + 1)).getD none)) names n, if_pos hn]
+    · simp only [recovered]
+      rw [histAt_append, hl n hn]
+      simp
+
+/-- **crash_reexecute_hash** (`k ≥ 1`).  From the store recovered after a crash behind any `j ≤ |order|`
+writes, re-executing the block and committing — in any iteration order — succeeds, reports version `k+1`
+with the commit hash of the uninterrupted run, and leaves a good multistore for the extended history
+(so the following blocks also reproduce the uninterrupted run, by `reachable`'s induction step). -/
+theorem crash_reexecute_hash (hH : HashOK H) (S : Tree → Prop) (hi : Inj H S) (names : List RootMulti.Name)
+    (hs : RootMulti.Name → List (Option Tree)) (k : Nat) (s : MStore) (g : GoodMS H S names hs k s) (hk : 1 ≤ k)
+    (nx : RootMulti.Name → Option Tree) (order order' : List RootMulti.Name) (ho : IsOrder names order)
+    (ho' : IsOrder names order') (hstep : ∀ n ∈ names, StepOK S k (lastOf (hs n)) (nx n)) :
+    ∃ s' cid ws, commitMS H order (s.applyBlock (fullBlock names nx)) = some (s', cid, ws) ∧
+      ∀ j, j ≤ order.length → ∃ rec s'' ws', openMS H (crashDisk s.disk ws j) names = some rec ∧
+        commitMS H order' (rec.applyBlock (fullBlock names nx)) = some (s'', cid, ws') ∧
+        GoodMS H S names (fun n => hs n ++ [nx n]) (k + 1) s'' := by
+  obtain ⟨s', ws, hc, hlen, g', hcrash, hfull, hci⟩ := crash_disks hH hi g nx order ho hstep
+  have hl : ∀ n ∈ names, (hs n).length = k := fun n hn => by obtain ⟨_, _, _, _, h⟩ := g.tree n hn; exact h
+  have hok : ∀ n ∈ names, HistOK S (hs n) := fun n hn => by obtain ⟨_, _, _, h, _⟩ := g.tree n hn; exact h
+  refine ⟨s', _, ws, hc, ?_⟩
+  intro j hj
+  obtain ⟨ci, hci', hv, hopen⟩ := recover_state hH nx order j (hcrash j hj) hk hl
+  obtain ⟨s'', ws', hre, g''⟩ := reexecute hH hi nx order order' ho ho' j (hcrash j hj) hk hl hok hstep ci hv
+  exact ⟨_, s'', ws', hopen, hre, g''⟩
 
 /-! ## The first commit (version 0 → 1) is different
 
